@@ -161,6 +161,9 @@ pub struct Point {
 fn make_point(line: &Line, dim: usize, order: Option<&[usize]>, rng: &mut impl Rng, extreme: u32) -> Point {
     let e = line.e;
     let mut x = vec![0.0; dim];
+    // extreme >= 100: a "spread" point - at one step the parameters drop by 10^-(extreme-100), so that L has a
+    // condition number of about that size (exercises the pivots of the Cholesky factor far from 1)
+    let spread_step = if extreme >= 100 && e >= 2 { Some(rng.gen_range(0..e - 1)) } else { None };
     let mut want = order.map(|o| o.to_vec());
     let mut id = (1usize << e) - 1;
     for i in 0..dim {
@@ -178,6 +181,11 @@ fn make_point(line: &Line, dim: usize, order: Option<&[usize]>, rng: &mut impl R
                 }
                 None => x[i] = rng.gen_range(0.0..1.0),
             }
+        } else if i < 2 * e - 2 && spread_step == Some(i / 2) {
+            // xi^(1/omega) = 10^-r  with omega of the graph left after this removal (id has already been updated)
+            let r = (extreme - 100) as f64;
+            let om = if order.is_some() { line.gd[id] } else { 1.0 };
+            x[i] = 10f64.powf(-r * om).max(1e-300);
         } else if i < 2 * e - 2 {
             x[i] = match extreme {
                 1 => [0.5, 0.25, 0.75, 1e-3, 0.999][rng.gen_range(0..5)],
@@ -590,6 +598,14 @@ pub fn run(lines: &[Value], opts: &SampleOpts) -> Summary {
             for _ in 0..opts.points_per_line { let mut o: Vec<usize> = (0..line.e).collect(); o.shuffle(&mut rng); pts.push(make_point(&line, dim, Some(&o), &mut rng, 0)); }
         }
         for k in 0..opts.points_per_line { pts.push(make_point(&line, dim, None, &mut rng, (k % 3) as u32)); }
+        if line.e >= 2 && line.l >= 2 {
+            use rand::seq::SliceRandom;
+            for r in [7u32, 9, 10, 11] {
+                let mut o: Vec<usize> = (0..line.e).collect(); o.shuffle(&mut rng);
+                pts.push(make_point(&line, dim, Some(&o), &mut rng, 100 + r));
+                sm.count("spread_points");
+            }
+        }
         let mut cx = Ctx { line: &line, inst, idx, sm: &mut sm };
         for pt in &pts {
             let stab = if rng.gen_bool(0.2) { Some(1e-3) } else { None };
